@@ -1,6 +1,6 @@
 package props
 
-// Second half of X-vars: the strconv / EqualFold helper models, and `argmap` on every field and
+// Second half of X-vars: the strconv helper models, and `argmap` on every field and
 // directive of a set of validated documents (C15), with the direct `argSpec` check.
 
 import (
@@ -43,14 +43,6 @@ func (c *Ctx) checkStrconv() {
 		reqs = append(reqs, "strconv quote "+h)
 		want = append(want, impl.Call("strconvgo", []string{"quote", h}))
 	}
-	folds := []string{"RED", "red", "Red", "rEd", "Kelvin", "Kelvin", "KELVIN", "kelvin", "SK", "sk", "ſK", "ſK", "Sk", "", "R", "REDD", "\xff", "\xffED", "RE\xcc", "blue", "BLUE", "é", "É", "_a1", "_A1", "@", "`", "[", "{", "ſ", "ſſ", "ss", "K", "k", "KK"}
-	for _, s := range folds {
-		for _, t := range []string{"RED", "blue", "Kelvin", "SK", "ss", "kk", "_a1", "", "@", "`", "[", "{", "s", "K"} {
-			hs, ht := impl.HexW([]byte(s)), impl.HexW([]byte(t))
-			reqs = append(reqs, "strconv fold "+hs+" "+ht)
-			want = append(want, impl.Call("strconvgo", []string{"fold", hs, ht}))
-		}
-	}
 	got := c.Driver.Map(reqs)
 	bad := 0
 	for i := range got {
@@ -63,7 +55,7 @@ func (c *Ctx) checkStrconv() {
 			}
 		}
 	}
-	fmt.Printf("X-vars strconv/EqualFold helper models: %d cases, MISMATCHES %d\n", len(reqs), bad)
+	fmt.Printf("X-vars strconv helper models: %d cases, MISMATCHES %d\n", len(reqs), bad)
 }
 
 // documents for the argument-map run; %C is replaced by custom-scalar literals
